@@ -37,6 +37,11 @@ def main(argv):
         return 0 if ok else 1
     tier = argv[2]
     assert tier in ("quick", "thorough")
+    for fn in ("failing-input", "unverified"):
+        try:
+            os.remove(os.path.join(VERIF, "evidence", "replays", "%s-%s.json" % (pid, fn)))
+        except OSError:
+            pass
     tier = os.environ.get("VERIF_TIER", tier) if os.environ.get("VERIF_TIER") in ("quick", "thorough") else tier
 
     broken = []   # proof obligations / tie that no longer check
